@@ -1687,6 +1687,50 @@ def b_groupby(interp, args, kwargs):
     return ListV(out)
 
 
+def b_property(interp, args, kwargs):
+    """property(fget, ...) written as a call rather than a decorator."""
+    from .values import PropertyV
+    fget = args[0] if args else kwargs.get('fget')
+    if fget is None or (isinstance(fget, K) and fget.v is None):
+        return NotImplemented
+    return PropertyV(fget)
+
+
+def b_attrgetter(interp, args, kwargs):
+    if len(args) != 1 or not (isinstance(args[0], K) and
+                              isinstance(args[0].v, str)):
+        return NotImplemented
+    path = args[0].v.split('.')
+
+    def get(interp2, a, kw):
+        v = a[0]
+        for part in path:
+            v = interp2.get_attr(v, part)
+        return v
+    return AbsFunc('attrgetter(%s)' % args[0].v, get)
+
+
+def b_itemgetter(interp, args, kwargs):
+    if len(args) != 1:
+        return NotImplemented
+    key = args[0]
+    return AbsFunc('itemgetter', lambda i2, a, kw: subscript(i2, a[0], key))
+
+
+def b_frozenset(interp, args, kwargs):
+    return b_set(interp, args, kwargs)
+
+
+def b_dict_fromkeys(interp, args, kwargs):
+    if not args or isinstance(args[0], T):
+        return NotImplemented
+    value = args[1] if len(args) > 1 else K(None)
+    d = DictV([])
+    for k in interp.iterate(args[0]):
+        d.set(k, value)
+    return d
+
+
 def b_operator_bin(sym):
     node = {'or_': ast.BitOr, 'and_': ast.BitAnd, 'add': ast.Add,
             'sub': ast.Sub, 'mul': ast.Mult, 'xor': ast.BitXor}[sym]()
@@ -1715,6 +1759,9 @@ BUILTINS = {
     'range': b_range, 'enumerate': b_enumerate, 'reversed': b_reversed,
     'zip': b_zip, 'dict': b_dict, 'list': b_list, 'tuple': b_tuple,
     'set': b_set, 'sorted': b_sorted, 'all': b_all, 'any': b_any,
+    'frozenset': b_frozenset, 'property': b_property,
+    'operator.attrgetter': b_attrgetter, 'operator.itemgetter': b_itemgetter,
+    'dict.fromkeys': b_dict_fromkeys,
     'getattr': b_getattr, 'hasattr': b_hasattr, 'type': b_type, 'id': b_id,
     'iter': b_iter, 'print': b_print, 'next': b_next,
     'contextlib.suppress': b_suppress,
